@@ -176,31 +176,42 @@ def run(ctx):
                     ctx.sample({"burst": key, "bit0": repr(out.items[0]), "bit98(slot type)": repr(out.items[98]), "bit263": repr(out.items[263])})
 
     # ---- voice bursts around a voice SYNC
+    # the library recognises a voice SYNC by itself (the burst type need not be given): both ways of parsing are analysed
     for sname in voice_syncs:
-        key = f"{q} | voice,{sname}"
+      for given in ("Vocoder", None):
+        key = f"{q} | voice,{sname}" + ("" if given else ",burst type not given")
         with ctx.guard(key):
             I = Interp(repo)
 
-            def run_v(st, sname=sname):
+            def run_v(st, sname=sname, given=given):
                 I.st = st
                 v = [I.atom_form(("v", i)) for i in range(216)]
                 center = [F(0, (pats[sname] >> (47 - i)) & 1) for i in range(48)]
                 full = ABits(v[:108] + center + v[108:], "ba")
-                b = I.construct(bci, [], {"full_bits": full, "burst_type": bt["Vocoder"]})
-                return full, I.call(as_bits, [b], {})
+                b = I.construct(bci, [], {"full_bits": full, "burst_type": bt[given]} if given else {"full_bits": full})
+                return full, I.call(as_bits, [b], {}), b
 
             bad = []
             n_ok = 0
             for st, (k, v) in explore(run_v):
                 I.st = st
+                if k == "abort":
+                    raise AnalysisError(f"{key}: {v}")
                 if k != "ok":
                     bad.append(f"{k}: {v}")
                     continue
                 n_ok += 1
-                full, out = v
+                full, out, b = v
                 if not (isinstance(out, ABits) and I.simp_bits(out.items) == I.simp_bits(full.items)):
                     bad.append("bits differ")
-            ctx.ob("burst/voice-sync", key, not bad and n_ok > 0, "; ".join(bad[:2]) or f"{n_ok} path(s), identical forms", as_bits.loc)
+                # what the parse must have recognised: a vocoder burst that starts a superframe, not a data / control burst
+                for attr, want in (("is_vocoder", True), ("is_data_or_control", False), ("is_voice_superframe_start", True)):
+                    got = b.attrs.get(attr)
+                    if isinstance(got, AInt):
+                        got = I.st and (lambda c: bool(c) if c is not None else got)(I_const(I, got))
+                    if got is not want and attr in b.attrs:
+                        bad.append(f"{attr} is {got!r} after parsing a burst around the {sname} pattern")
+            ctx.ob("burst/voice-sync", key, not bad and n_ok > 0, "; ".join(bad[:2]) or f"{n_ok} path(s), identical forms, recognised as the start of a voice superframe", as_bits.loc)
 
     # ---- voice bursts around valid embedded signalling
     key = f"{q} | voice,EMB"
@@ -271,8 +282,15 @@ def run(ctx):
         ctx.ob("assume/trellis-tables", o["rule"] + " | " + o["key"].split("|", 1)[1].strip(), o["ok"], o["detail"], o["loc"])
     ctx.require("assume/trellis-tables", 5)
     ctx.require("burst/payload-roundtrip", 32)
-    ctx.require("burst/voice-sync", 4)
+    ctx.require("burst/voice-sync", 8)
     ctx.require("burst/voice-emb", 1)
+
+
+def I_const(I, v):
+    bits = I.simp_bits(v.bits)
+    if v.ext is None and all(isinstance(b, F) and b.is_const for b in bits):
+        return sum(b.c << i for i, b in enumerate(bits))
+    return None
 
 
 def I_to_bits(v, w):
